@@ -21,13 +21,14 @@ fn any_reno() -> NewReno {
     c
 }
 
-// @harness reno_new_establishes_floor props=C12 tier=quick kind=proof fn="NewReno::new" desc="with the default configuration and any MTU whose double fits the configured initial window, new() reports a window of at least two datagrams"
+// @harness reno_new_establishes_floor props=C12 tier=quick kind=proof fn="NewReno::new" desc="for every configured initial window and every MTU >= 1200 (initial_mtu is configurable up to 65527), new() reports a window of at least two datagrams"
 #[cfg_attr(kani, kani::proof)]
 #[cfg_attr(verif_replay, test)]
 fn reno_new_establishes_floor() {
     let mtu: u16 = vk::any();
-    let cfg = NewRenoConfig::default();
-    vk::assume(mtu >= 1200 && 2 * (mtu as u64) <= cfg.initial_window);
+    let mut cfg = NewRenoConfig::default();
+    cfg.initial_window = vk::any();
+    vk::assume(mtu >= 1200);
     vk::vk_cover!(mtu == 1200);
     let c = NewReno::new(Arc::new(cfg), vk::instant(5), mtu);
     assert!(c.window() >= 2 * (mtu as u64));
